@@ -391,7 +391,6 @@ func scTubeStream(r *Run) {
 	for _, e := range ends {
 		r.Logf("%s total=%d written=%d read=%d eof=%v", e.name, e.total, e.written, e.read, e.eof)
 	}
-	r.Logf("net sent=%d delivered=%d dropped=%d digest=%016x", n.Sent, n.Delivered, n.Dropped, n.Digest)
 	if !mp.StopBoth(r, 2*time.Minute) {
 		r.Logf("muxer stop did not return within 2 minutes (judged by C16, not here)")
 	}
